@@ -114,9 +114,7 @@ fn main() {
             t_byte(&mut rep, Mode::C01, if q { 5 } else { 6 });
             u_all(&mut rep, Mode::C01, tier, !q);
             t_corpus(&mut rep, Mode::C01, tier);
-            if !q {
-                x_all(&mut rep, Mode::C01, tier);
-            }
+            x_all(&mut rep, Mode::C01, tier);
             rep.rule = "a state is an input prefix (node of the execution tree); every node is executed on the real parser through every entry point (13 text entry points on core nodes; parse_str/parse_slice/observed iterator on deviation nodes; parse_slice/parse_slice_with on byte nodes) and the verdict compared with R-pda (+ surrogate well-formedness, + core::str::from_utf8 for bytes); children only below viable prefixes, post-mortem horizon 2 below dead nodes; non-trivial = distinct inputs".into();
             rep.assumptions.push("strict acceptance = RFC 8259 grammar AND every \\u escape sequence denotes scalar values (no unpaired surrogate), the reading under which C01, C07 and C12 are mutually consistent".into());
             rep.assumptions.push("reference models R-pda / R-dec / core::str::from_utf8; cross-checked against each other and against serde_json on every explored node (a disagreement is a machinery error)".into());
